@@ -13,7 +13,19 @@ use std::time::Instant;
 
 use serde_json::{json, Value};
 
-pub const VERIF_DIR: &str = "/verif";
+/// Root of the verification tree this binary belongs to (`bin/check` exports
+/// `VERIF_DIR`; a snapshot of /verif therefore keeps everything it writes to
+/// itself).
+pub fn verif_dir() -> String {
+    std::env::var("VERIF_DIR").unwrap_or_else(|_| "/verif".to_string())
+}
+
+/// Where the evidence file goes: `VERIF_EVIDENCE_DIR` if set (runs against a
+/// deliberately broken tree must not overwrite the evidence of the unchanged
+/// one), else `<verif>/evidence`.
+pub fn evidence_dir() -> String {
+    std::env::var("VERIF_EVIDENCE_DIR").unwrap_or_else(|_| format!("{}/evidence", verif_dir()))
+}
 
 #[derive(Clone, Copy, PartialEq, Eq, Debug)]
 pub enum Tier {
@@ -57,7 +69,7 @@ pub struct Ev {
 }
 
 fn load_known(id: &str) -> Vec<(String, String, String)> {
-    let path = format!("{VERIF_DIR}/known_findings.json");
+    let path = format!("{}/known_findings.json", verif_dir());
     let Ok(text) = std::fs::read_to_string(&path) else {
         return Vec::new();
     };
@@ -227,7 +239,7 @@ impl Ev {
         let mut v = self.violations.lock().unwrap();
         // Cap the number of replay files per run; keep counting.
         let k = v.len();
-        let dir = format!("{VERIF_DIR}/replays");
+        let dir = format!("{}/replays", verif_dir());
         let _ = std::fs::create_dir_all(&dir);
         let path = PathBuf::from(format!(
             "{dir}/{}-{}-{}-{}.json",
@@ -304,7 +316,7 @@ impl Ev {
             "wall_s": self.start.elapsed().as_secs_f64(),
             "violations": violations.len(),
         });
-        let dir = format!("{VERIF_DIR}/evidence");
+        let dir = evidence_dir();
         let _ = std::fs::create_dir_all(&dir);
         let path = format!("{dir}/{}.json", self.id);
         if let Err(e) = std::fs::write(&path, serde_json::to_string_pretty(&ev).unwrap()) {
